@@ -18,6 +18,7 @@ STRUCTS = {
     'w3': ('pub struct Wr<const N: usize, T>(pub core::marker::PhantomData<T>);', None, 'Wr<{C}, {T0}>'),
     'w4': ('pub struct Wr<T, U>(pub core::marker::PhantomData<(T, U)>);', None, 'Wr<{T0}, {T1}>'),
     'w5': ("pub struct Wr<'a, T, const N: usize>(pub core::marker::PhantomData<&'a T>);", None, "Wr<{L0}, ({T0}, {T1}), {C}>"),
+    'w6': ('pub struct Wr<T, U: ?Sized>(pub core::marker::PhantomData<T>, pub core::marker::PhantomData<U>);', None, 'Wr<{T0}, {T1}>'),
 }
 
 
@@ -48,6 +49,11 @@ def gen(rng, idx=None):
             if 'T1' in slots and rng.random() < 0.5:
                 bounds.append(('{T1}', 'D', {}, rng.choice(['inline', 'where'])))
             b = gp.Block({x: slots[x] for x in order}, None, self_fmt, bounds, 'b%d' % len(blocks))
+            if sk == 'w6':
+                # the struct's second parameter may be unsized: some blocks relax it (inline / where)
+                r = rng.random()
+                b.relaxed = {'T1': 'inline'} if r < 0.4 else {'T1': 'where'} if r < 0.8 else {}
+                b.bounds = [bd for bd in b.bounds if bd[0] != '{T1}']
             blocks.append(b)
         if generic_const:
             break
@@ -62,7 +68,7 @@ def gen(rng, idx=None):
         order = list(slots); rng.shuffle(order)
         order = [x for x in order if x[0] == 'L'] + [x for x in order if x[0] != 'L']
         blocks.append(gp.Block({x: slots[x] for x in order}, None, self_tmpl.replace('{C}', '12'), [('{T0}', tr, {'G': free[0]}, 'where')], 'bn'))
-    if sk == 'w4' and rng.random() < 0.6:
+    if sk == 'w4' and rng.random() < 0.6:   # (w6 has no nested members: T1 may be unsized)
         # a nested member: a more specific self type re-expressing the family's key
         used_groups = {bd[2].get('G') for b in blocks for bd in b.bounds}
         free = [x for x in gp.GROUPS + ['GD'] if x not in used_groups]
@@ -94,6 +100,8 @@ def gen(rng, idx=None):
                 probes.append(self_tmpl.replace('{C}', cv).format(L0="'static", T0=a, T1=b2))
     rng.shuffle(probes)
     c.probes = probes[:8]
+    if sk == 'w6':
+        c.probes = probes[:5] + [self_tmpl.format(T0=a, T1=u) for a in atoms[:2] for u in ('str', '[u8]')]
     if nested_self:
         c.probes = c.probes[:6] + [nested_self.format(T0=a, T1=b2) for a in atoms[:2] for b2 in atoms[:1]]
         if sk == 'w4' and nested2 and nested2 != nested_self:
